@@ -21,7 +21,7 @@ func init() { register(c04{}) }
 func (c04) ID() string            { return "C04" }
 func (c04) EvidenceLevel() string { return "exploration" }
 func (c04) Rule() string {
-	return "case = one stream (valid, or a valid stream cut at a byte) x a set of delivery/read schedules: source chunking {1 byte per call, random short reads, one split at k (every k for streams <= 600 bytes), data together with io.EOF} x transport {none, bufio of 16,17,64,328,329,4095,4096,4097,64K,1M, handed to NewReader or to Reset} x destination sizes {1,2,7,random,64K}. Every schedule must produce the same bytes and the same final error as the all-at-once baseline. Non-trivial: the stream decodes to at least one byte or is truncated; distinct by (stream digest, schedule). Every 14th case adds a truncation sweep: word salad whose separators are 0x00/0x01/0xff, sixteen cut points, each read whole, byte by byte and in random chunks."
+	return "case = one stream (valid, or a valid stream cut at a byte) x a set of delivery/read schedules: source chunking {1 byte per call, random short reads, one split at k (every k for streams <= 600 bytes), data together with io.EOF} x transport {none, bufio of 16,17,64,328,329,4095,4096,4097,64K,1M, handed to NewReader or to Reset} x destination sizes {1,2,7,random,64K}. Every schedule must produce the same bytes and the same final error as the all-at-once baseline. Non-trivial: the stream decodes to at least one byte or is truncated; distinct by (stream digest, schedule). Every 14th case adds a truncation sweep: word salad whose separators are 0x00/0x01/0xff, sixteen cut points, each read whole, byte by byte and in random chunks. Match-edge cases add five more synthesised streams each (most with a packed literal(s)+match entry ending one or two bytes beyond the 64 KiB window), every one in every plain two-piece delivery."
 }
 func (c04) NumCases(tier string) int {
 	if tier == "thorough" {
@@ -135,6 +135,7 @@ func c04Run(api *impl.API, r *gen.Rand, in []byte, s c04Sched, limit int) readRu
 func (c04) Run(c *mon.Ctx, i int) {
 	r := c.R
 	var vs *ValidStream
+	edge := false // a match-edge stream: every split also with the plain two-piece source
 	switch i % 7 {
 	case 0:
 		// long dynamic header right at the start and again later
@@ -187,18 +188,20 @@ func (c04) Run(c *mon.Ctx, i int) {
 		}
 	case 3:
 		vs = RandomValidStream(r, 3000) // small: every split point
-		if i%14 == 3 {
+		if i%14 == 3 || i%28 == 10 {
 			// a packed literal(s)+long-match entry starting 258+delta bytes before the
 			// window is full; the stream is small, so every split point is tried
-			st, plain, d := synth.MatchEdge(r, (i/14)%4, (i/56)%3, r.Pick(258, 258, 257), r.Pick(0, 0, 1))
+			// ((delta, literals) enumerated, match length and window index alternate)
+			st, plain, d := synth.MatchEdge(r, (i/14)%4, (i/56)%3, []int{258, 257, 258}[(i/168)%3], []int{0, 0, 1}[(i/7)%3])
 			vs = &ValidStream{S: st, Plain: plain, Desc: "synth " + d}
+			edge = true
 		}
 	default:
 		vs = RandomValidStream(r, 150000)
 	}
 	in := vs.S
 	truncated := false
-	if r.Chance(1, 3) && len(in) > 1 {
+	if r.Chance(1, 3) && len(in) > 1 && !edge {
 		in = in[:r.Intn(len(in))]
 		truncated = true
 	}
@@ -254,10 +257,43 @@ func (c04) Run(c *mon.Ctx, i int) {
 		}
 		c.Count("truncation-sweep-cases", 1)
 	}
+	if edge {
+		// further match-edge streams, most of them with an entry that ends one or
+		// two bytes beyond the window (literals + match longer than the room left),
+		// each in every plain two-piece delivery
+		over := [][3]int{{0, 1, 258}, {0, 2, 258}, {0, 2, 257}, {1, 2, 258}, {0, 1, 258}, {1, 1, 258}, {2, 2, 258}, {0, 0, 258}}
+		for t := 0; t < 5; t++ {
+			pr := over[(i/7+t)%len(over)]
+			st, plain, d := synth.MatchEdge(r, pr[0], pr[1], pr[2], []int{0, 1, 0, 2}[(i/7+t)%4])
+			b0 := c04Run(c.API, r, st, c04Sched{chunk: "whole", dst: "64k"}, len(plain)+1<<20)
+			for k := 1; k < len(st); k++ {
+				sc := c04Sched{chunk: "split", split: k, dst: "64k"}
+				rr := c04Run(c.API, r, st, sc, len(plain)+1<<20)
+				c.Eval(1)
+				if rr.panicV != nil || b0.panicV != nil || !bytes.Equal(rr.out, b0.out) || impl.ErrClass(rr.err) != impl.ErrClass(b0.err) {
+					d2 := map[string]interface{}{"stream": "synth " + d, "stream_sha": mon.Sha(st), "stream_len": len(st), "stream_hex": mon.Hex(st, 1500), "schedule": sc.String(),
+						"baseline": fmt.Sprintf("%d bytes, err=%v", len(b0.out), b0.err), "got": fmt.Sprintf("%d bytes, err=%v", len(rr.out), rr.err)}
+					if rr.panicV != nil {
+						d2["stack"] = rr.stack
+						c.Violate("panic|"+mon.PanicSite(rr.stack), fmt.Sprintf("Reader panicked under schedule %s: %v", sc, rr.panicV), d2)
+						return
+					}
+					c.Violate("bytes-differ|chunk=split|bufio=none|reset=false", fmt.Sprintf("%s: schedule %s yields %d bytes then %v, whole delivery %d bytes then %v", d, sc, len(rr.out), rr.err, len(b0.out), b0.err), d2)
+					return
+				}
+			}
+			c.Count("match-edge-streams-in-every-two-piece-split", 1)
+		}
+	}
 	var scheds []c04Sched
 	if len(in) <= 700 {
 		for k := 1; k < len(in); k++ {
 			scheds = append(scheds, c04Sched{chunk: "split", split: k, bufio: c04Bufios[r.Intn(len(c04Bufios))], viaRst: r.Bool(), dst: pickDst(r)})
+			if edge {
+				// no bufio in between (the first piece reaches the Reader whole, so
+				// its fast loop runs up to the split), large destination
+				scheds = append(scheds, c04Sched{chunk: "split", split: k, dst: "64k"})
+			}
 		}
 	}
 	// history roll-overs: where in the compressed stream does the output cross
